@@ -4,4 +4,5 @@ set -eu
 cd /verif
 . scripts/env.sh
 scripts/build.sh
+scripts/build.sh race
 bin/vcheck list
